@@ -33,6 +33,9 @@ type Point struct {
 
 type Svc struct {
 	N int
+	// Cur is read through the pointer-held Svc (svc.Cur.X), Echo hands the same
+	// struct type back by value
+	Cur Point
 }
 
 func (s *Svc) Sum(xs []int) int {
@@ -168,10 +171,18 @@ func (ft *freshTypes) values(k int) map[string]any {
 		"items": items.Interface(),      // slice of fresh struct
 		"tab":   tab.Interface(),        // map[string]fresh struct
 		"arr":   arr.Interface(),        // array of fresh struct
-		"svc":   &Svc{N: k},
+		"svc":   &Svc{N: k, Cur: Point{X: 30 + k, Y: 3}},
 		"pt":    Point{X: k, Y: 2},
 		"nums":  []int{k, k + 1, k + 2},
 		"grid":  [][]float64{{1, 2}, {float64(k)}},
+		// the struct type of Pre's field Inner, by value (pre.Inner reaches the
+		// same type through a field of a pointer-held struct)
+		"innerv": func() any {
+			f, _ := ft.Pre.FieldByName("Inner")
+			v := reflect.New(f.Type).Elem()
+			v.FieldByName("R").SetInt(int64(70 + k))
+			return v.Interface()
+		}(),
 	}
 }
 
@@ -180,7 +191,7 @@ var c09Ops = []string{
 	`rec.A = rec.A + 1; out.append(rec.A)`,
 	`out.append(len(rec.B)); out.append(rec.B[1])`,
 	`rec.B = ["x", "y", "z"]; out.append(len(rec.B))`,
-	`out.append(rec.C["k"])`,
+	`out.append(rec.C.get("k", -1))`,
 	`rec.C = {"q": 5}; out.append(rec.C["q"])`,
 	`n := 0; for _, it := range rec.Items { n += it.V }; out.append(n)`,
 	`out.append(recv.A)`,
@@ -194,7 +205,6 @@ var c09Ops = []string{
 	`out.append(svc.Echo({"X": 1, "Y": 2}).X)`,
 	`out.append(svc.Echo(pt).Y)`,
 	`n := 0; for _, p := range svc.Make(3) { n += p.X + p.Y }; out.append(n)`,
-	`out.append(svc.Grid([[1.5, 2.5], [3.0]]))`,
 	`out.append(svc.Grid(grid))`,
 	`out.append(svc.N)`,
 	`out.append(encode("abc", "base64"))`,
@@ -207,6 +217,12 @@ var c09Ops = []string{
 	`z := encode(string(nums), "gzip"); out.append(len(z) > 0); out.append(string(decode(z, "gzip")))`,
 	`t := spawn(func() { import statemod; return statemod.bump() }); import shared_mod; out.append(shared_mod.triple(t.wait()))`,
 	`t := spawn(func() { import shared_mod; return shared_mod.triple(5) }); tr := spawn(func() { import statemod; return statemod.bump() }); out.append([t.wait(), tr.wait()])`,
+	`out.append([10, 20, 30].map(func(i, x) { return i + x })); out.append(0 + 0); out.append(len([]))`,
+	`n := 0; [5, 6, 7, 8].each(func(x) { n += x }); out.append(n); out.append([1, 2, 3].filter(func(x) { return x > 1 }))`,
+	`out.append(svc.Cur.X + svc.Cur.Y)`,
+	`out.append(svc.Cur.X); out.append(svc.Echo(pt).Y); out.append(svc.Echo({"X": 3, "Y": 4}).X)`,
+	`out.append(pre.Inner.R + 1)`,
+	`out.append(innerv.R + 2)`,
 	`out.append(pre.P); out.append(pre.Q)`,
 	`pre.P = pre.P + 1; out.append(pre.P + pre.Inner.R)`,
 	`out.append(anys[0].V); out.append(len(anys))`,
@@ -432,7 +448,7 @@ func c09GlobalNames() []string {
 	for k := range builtins.Builtins() {
 		names = append(names, k)
 	}
-	names = append(names, "rec", "recv", "items", "tab", "arr", "svc", "pt", "nums", "grid", "publish", "anys", "amap", "pre")
+	names = append(names, "rec", "recv", "items", "tab", "arr", "svc", "pt", "nums", "grid", "publish", "anys", "amap", "pre", "innerv")
 	sort.Strings(names)
 	return names
 }
@@ -740,6 +756,14 @@ func runC09(rc *fw.RunCtx) {
 	for k, e := range evals {
 		if e.out.Panic != nil {
 			rc.Violate("panic/api", "eval%d: panic reached the caller: %v", k, e.out.Panic)
+			return
+		}
+		if e.out.Err != nil {
+			// the generated programs wrap everything that may fail in try: an
+			// evaluation that ends in an error has met something it would not
+			// meet in a process of its own (whatever the reference run, in this
+			// same process, says)
+			rc.Violate("error/unexpected", "eval%d failed: %v; program: %s", k, e.out.Err, e.prog)
 			return
 		}
 		if got := e.out.String(); got != e.solo {
